@@ -112,6 +112,38 @@ def judge_message(ctx, t, a, tm, builder='ctor'):
         ctx.fail('eval(repr(m)) == m', f'repr-raised:{t}', case, f'{type(exc).__name__}: {exc}')
 
 
+def judge_frozen(ctx, m0, case):
+    """The same conversions on the frozen twin of a message AFTER it has been used the way frozen
+    messages are used (hashed, put in a set, looked up in a dict)."""
+    import mido.frozen as fz
+    ns = dict(NS)
+    ns.update({k: getattr(fz, k) for k in ('FrozenMessage', 'FrozenMetaMessage', 'FrozenUnknownMetaMessage')})
+    try:
+        fm = fz.freeze_message(m0)
+        try:
+            h = hash(fm)
+            table = {fm: 1}
+            hit = table.get(fz.freeze_message(m0.copy())) == 1 and fm in {fm} and hash(fm) == h
+        except TypeError:
+            return          # unhashable contents (sequencer_specific list data: a known finding of C15)
+        ctx.check('frozen twin converts like the message', hit, 'frozen:lookup', case, None)
+        ctx.check('frozen twin converts like the message', vars(fm) == vars(m0), 'frozen:stray-attribute-after-hash', case,
+                  lambda: sorted(set(vars(fm)) ^ set(vars(m0))))
+        if isinstance(m0, Message):
+            ctx.check('frozen twin converts like the message', str(fm) == str(m0) and eq_typed(Message.from_str(str(fm)), m0),
+                      'frozen:str', case, lambda: str(fm)[:160])
+            ctx.check('frozen twin converts like the message', fm.dict() == m0.dict() and eq_typed(Message.from_dict(fm.dict()), m0),
+                      'frozen:dict', case, lambda: repr(fm.dict())[:160])
+        back = eval(repr(fm), ns)  # noqa: S307
+        ctx.check('frozen twin converts like the message', type(back) is type(fm) and back == fm and back == m0, 'frozen:repr', case,
+                  lambda: repr(fm)[:160])
+        th = fz.thaw_message(fm)
+        ctx.check('frozen twin converts like the message', type(th) is type(m0) and th == m0 and vars(th) == vars(m0), 'frozen:thaw',
+                  case, lambda: repr(vars(th))[:160])
+    except Exception as exc:
+        ctx.fail('frozen twin converts like the message', f'frozen:{type(exc).__name__}', case, f'{type(exc).__name__}: {exc}')
+
+
 def safe_repr(obj, n=300):
     try:
         return repr(obj)[:n]
@@ -291,6 +323,8 @@ def run(ctx):
                 continue
             for tm in (TIMES if (ai % 5 == 0) else (TIMES[(ai + ti) % len(TIMES)], TIMES[(ai * 7 + 3) % len(TIMES)])):
                 judge_message(ctx, t, a, tm)
+                if ai % 3 == 0:
+                    judge_frozen(ctx, Message(t, time=tm, **a), {'kind': 'frozen', 'type': t, 'attrs': a, 'time': repr(tm)})
                 if t == 'sysex' or ai % 4 == 0:
                     judge_message(ctx, t, a, tm, builder=('skip-list', 'skip-bytes', 'skip-gen')[(ai + ti) % 3])
                 ctx.nontrivial((t, tuple(sorted(a.items())), repr(tm)))
@@ -306,6 +340,7 @@ def run(ctx):
         for m in meta_objects(rng, 6):
             judge_repr(ctx, m, 'eval(repr(meta)) == meta', f'meta-repr:{m.type}',
                        lambda: {'kind': 'meta', 'repr': safe_repr(m, 200)})
+            judge_frozen(ctx, m, {'kind': 'frozen-meta', 'repr': safe_repr(m, 200)})
             ctx.nontrivial(('meta', safe_repr(m)))
             n += 1
         for ln in (0, 1, 1, 2, 3, rng.randrange(4, 12)):
@@ -406,6 +441,13 @@ def replay(ctx, case):
         if 'data' in a:
             a['data'] = tuple(a['data'])
         judge_message(ctx, case['type'], a, eval(case['time']))  # noqa: S307
+    elif k == 'frozen':
+        a = dict(case['attrs'])
+        if 'data' in a:
+            a['data'] = tuple(a['data'])
+        judge_frozen(ctx, Message(case['type'], time=eval(case['time']), **a), case)  # noqa: S307
+    elif k == 'frozen-meta':
+        judge_frozen(ctx, eval(case['repr'], dict(NS)), case)  # noqa: S307
     elif k == 'invalid':
         judge_invalid(ctx, case['text'], case['class'])
     elif k == 'fuzz':
